@@ -97,6 +97,8 @@ def main(v: Verdict) -> None:
         SHAPES[f"s{sc['id']:04d}"] = sc.get("shape", "")
         if sc.get("variant") in ("samemodule", "pkgmodreexp"):       # a module re-exported as a whole keeps its own name as file name
             aliases[f"s{sc['id']:04d}"] = [topo.u2_names(sc)["m1"] if sc["variant"] == "samemodule" else "deep"]
+        if sc.get("variant") == "samemoduleboth":      # ... or the name the re-exporting package gives it
+            aliases[f"s{sc['id']:04d}"] = [topo.u2_names(sc)["m1"], *(e["alias"] + topo.sfx(sc["id"]) for e in sc["exports"])]
     for c in range(0, len(scs2), 30):
         root = f"toptwo{c // 30:02d}"
         files = {"__init__.py": ""}
